@@ -20,6 +20,16 @@ type Encoded struct {
 	// SigCleared counts signature values the harness removed from the value because their
 	// reserved slot cannot be addressed exactly (nested model that is not first in its parent).
 	SigCleared int
+	Digests    int // interestName fields encoded with needDigest
+}
+
+// EncOpts are the encoder inputs that are not part of the value.
+type EncOpts struct {
+	// NeedDigest sets <Name>_needDigest on every interestName field: Init then replaces the
+	// name's trailing ParametersSha256Digest component by a 32-byte placeholder that the
+	// caller is expected to fill (the harness leaves the zeros: the digest is checked by
+	// spec.go, not by the generated model).
+	NeedDigest bool
 }
 
 // sigInput is one signature field found in a value.
@@ -60,7 +70,7 @@ func emitsBytes(fv reflect.Value, kind string) bool {
 // index is relative to the outer buffer the inner model started in; like the repository's own
 // callers ("since PacketEncoder only adds a TL, …_wireIdx is still valid") the harness uses it
 // only when nothing precedes the nested model in the outer encoding, where the offset is 0.
-func (s *State) collectSigs(m *Model, v reflect.Value, prefix []string, exact bool, out *[]sigInput, cleared *int) {
+func (s *State) collectSigs(m *Model, v reflect.Value, prefix []string, exact bool, out *[]sigInput, cleared *int, digests *[][]string) {
 	t := v.Type()
 	first := true // no earlier field of this value emitted bytes
 	for i := 0; i < t.NumField(); i++ {
@@ -74,6 +84,8 @@ func (s *State) collectSigs(m *Model, v reflect.Value, prefix []string, exact bo
 		}
 		fv := v.Field(i)
 		switch fi.Kind() {
+		case "interestName":
+			*digests = append(*digests, append(append([]string{}, prefix...), sf.Name))
 		case "signature":
 			if fv.IsNil() {
 				continue
@@ -95,7 +107,7 @@ func (s *State) collectSigs(m *Model, v reflect.Value, prefix []string, exact bo
 				if sub := s.ByType(fv.Type()); sub != nil {
 					p := append(append([]string{}, prefix...), sf.Name+"_encoder")
 					nocopy := strings.HasSuffix(fi.Spec, ":nocopy")
-					s.collectSigs(sub, fv.Elem(), p, exact && first && nocopy && len(prefix) == 0, out, cleared)
+					s.collectSigs(sub, fv.Elem(), p, exact && first && nocopy && len(prefix) == 0, out, cleared, digests)
 				}
 			}
 		}
@@ -122,7 +134,7 @@ func fieldPath(ev reflect.Value, path []string, suffix string) reflect.Value {
 // EncodeValue runs NewEncoder / (signature inputs) / Init / Encode and fills signature slots.
 // Init may modify v (interestName fields rewrite the name's digest component) and the harness
 // clears signatures it cannot place: callers compare decoded values with v *after* this call.
-func (s *State) EncodeValue(m *Model, v any) (res Encoded, encoder any, err error) {
+func (s *State) EncodeValue(m *Model, v any, opts EncOpts) (res Encoded, encoder any, err error) {
 	defer func() {
 		if r := recover(); r != nil {
 			err = fmt.Errorf("encoder of %s panicked: %v", m.Info.Key(), r)
@@ -130,8 +142,19 @@ func (s *State) EncodeValue(m *Model, v any) (res Encoded, encoder any, err erro
 	}()
 	encoder = m.NewEncoder()
 	var sigs []sigInput
-	s.collectSigs(m, reflect.ValueOf(v).Elem(), nil, true, &sigs, &res.SigCleared)
+	var digests [][]string
+	s.collectSigs(m, reflect.ValueOf(v).Elem(), nil, true, &sigs, &res.SigCleared, &digests)
 	ev := reflect.ValueOf(encoder).Elem()
+	if opts.NeedDigest {
+		for _, p := range digests {
+			f := fieldPath(ev, p, "_needDigest")
+			if !f.IsValid() || !f.CanSet() {
+				return res, encoder, fmt.Errorf("harness: encoder of %s has no settable field %s_needDigest", m.Info.Key(), strings.Join(p, "."))
+			}
+			f.SetBool(true)
+			res.Digests++
+		}
+	}
 	for _, sg := range sigs {
 		f := fieldPath(ev, sg.path, "_estLen")
 		if !f.IsValid() || !f.CanSet() {
